@@ -38,7 +38,8 @@ ASSUMPTIONS = [
     "pyneqsys / scipy as installed in /venv; hooks are external wrappers, a missing hook target is a machinery failure",
 ]
 
-CHAINS = ["root-default", "solve-default", "root-lin", "root-loglin-cc", "root-log-rref", "roots", "stub"]
+CHAINS = ["root-default", "solve-default", "root-lin", "root-loglin-cc", "root-log-rref", "roots", "stub",
+          "root-x0", "root-x0-loglin", "roots-x0"]
 
 
 # ------------------------------------------------------------------ running the real code
@@ -62,34 +63,53 @@ def _success(info):
         return bool(info[-1]["success"])
 
 
-def _call(es, names, c0, chain, rng_val):
-    """returns list of rows: dict(x, ok, sane) or dict(exc=...) in call order"""
+def _varied(names, c0, rng_val):
+    j = rng_val % len(names)
+    base = c0[j] if c0[j] > 0 else 1e-3
+    return j, [base / 2, base / 4]
+
+
+def row_inits(names, c0, chain, rng_val):
+    """the initial state each result row belongs to - known from what the harness itself passes in
+    (never read back from the code under test)"""
+    if chain.startswith("roots"):
+        j, vals = _varied(names, c0, rng_val)
+        return [[v if t == j else c for t, c in enumerate(c0)] for v in vals]
+    return [list(c0)]
+
+
+def _call(es, names, c0, guess, chain, rng_val):
+    """returns list of rows: dict(x, ok, sane) in call order"""
     import numpy as np
     from chempy._eqsys import NumSysLin, NumSysLog
     init = dict(zip(names, c0))
-    if chain == "root-default":
-        x, info, sane = es.root(init)
+    x0 = np.array(guess, dtype=float)
+
+    def one(ret):
+        x, info, sane = ret
         return [dict(x=list(x), ok=_success(info), sane=bool(sane))]
+    if chain == "root-default":
+        return one(es.root(init))
     if chain == "solve-default":
         r = es.solve(init)
         return [dict(x=list(np.atleast_1d(r.conc)), ok=bool(r.success), sane=bool(r.sane))]
     if chain == "root-lin":
-        x, info, sane = es.root(init, NumSys=(NumSysLin,))
-        return [dict(x=list(x), ok=_success(info), sane=bool(sane))]
+        return one(es.root(init, NumSys=(NumSysLin,)))
     if chain == "root-loglin-cc":
-        x, info, sane = es.root(init, NumSys=(NumSysLog, NumSysLin), neqsys_type="conditional_chained")
-        return [dict(x=list(x), ok=_success(info), sane=bool(sane))]
+        return one(es.root(init, NumSys=(NumSysLog, NumSysLin), neqsys_type="conditional_chained"))
     if chain == "root-log-rref":
-        x, info, sane = es.root(init, NumSys=(NumSysLog,), rref_equil=True, rref_preserv=True)
-        return [dict(x=list(x), ok=_success(info), sane=bool(sane))]
-    if chain == "roots":
-        j = rng_val % len(names)
-        base = c0[j] if c0[j] > 0 else 1e-3
-        xs, infos, sanity = es.roots(init, [base / 2, base / 4], names[j])
+        return one(es.root(init, NumSys=(NumSysLog,), rref_equil=True, rref_preserv=True))
+    if chain == "root-x0":            # explicit starting guess: another mixture of the same system
+        return one(es.root(init, x0))
+    if chain == "root-x0-loglin":
+        return one(es.root(init, x0, NumSys=(NumSysLog, NumSysLin)))
+    if chain in ("roots", "roots-x0"):
+        j, vals = _varied(names, c0, rng_val)
+        kw = {"x0": x0} if chain == "roots-x0" else {}
+        xs, infos, sanity = es.roots(init, vals, names[j], **kw)
         return [dict(x=list(x), ok=_success(i), sane=bool(s)) for x, i, s in zip(xs, infos, sanity)]
     if chain == "stub":
-        x, info, sane = es.root(init, NumSys=(_stub_class(),))
-        return [dict(x=list(x), ok=_success(info), sane=bool(sane))]
+        return one(es.root(init, NumSys=(_stub_class(),)))
     raise ValueError(chain)
 
 
@@ -117,6 +137,7 @@ def run_problem(job):
     inp = case["in"]
     ks = [ec.dec_float(k) for k in inp["K"]]
     c0 = [ec.dec_float(v) for v in inp["c0"]]
+    guess = [ec.dec_float(v) for v in inp.get("guess", inp["c0"])]
     es, names = ec.build_system(inp["species"], inp["nu"], ks)
     ns = len(names)
     rec.install()
@@ -125,7 +146,7 @@ def run_problem(job):
     with warnings.catch_warnings():
         warnings.simplefilter("ignore")
         try:
-            rows = _call(es, names, c0, chain, rng_val)
+            rows = _call(es, names, c0, guess, chain, rng_val)
         except Exception as ex:  # projected: exception -> class name + text
             exc = "%s: %s" % (type(ex).__name__, str(ex)[:120])
     events = rec.stop()
@@ -137,11 +158,13 @@ def run_problem(job):
         elif segs:
             segs[-1].append(e)
     out = []
+    inits = row_inits(names, c0, chain, rng_val)
     if exc is not None and not segs:
-        segs = [[{"ev": "row", "params": c0 + ks}]]
+        segs = [[{"ev": "row"}]]
+    if len(segs) > len(inits):
+        raise core.MachineryFailure("recorder saw %d top-level solves for %d rows (%s)" % (len(segs), len(inits), chain))
     for idx, seg in enumerate(segs):
-        params = seg[0]["params"]
-        c0row = params[:ns]
+        c0row = inits[idx]      # the problem is what was asked for, not what the code made of it
         total = sum(abs(v) for v in c0row)
         s_exp = ec.scale_for(total)
         body, clipped, nan = _enc_events(seg[1:], s_exp)
@@ -149,7 +172,7 @@ def run_problem(job):
             if e["ev"] == "cond" and e.get("xd") is None:
                 e["xd"] = e["x"]
         c0enc, _ = ec.enc_vec(c0row, s_exp)
-        lnk = [int(round(math.log(k) * 1e6)) for k in params[ns:]]
+        lnk = [int(round(math.log(k) * 1e6)) for k in ks]
         tr = [{"ev": "problem", "rs": inp["rids"], "lnK": lnk, "c0": c0enc, "sexp": s_exp}] + body
         meta = dict(chain=chain, rids=inp["rids"], cls=case["cls"], K=inp["K"], c0=[float("%.6g" % v) for v in c0row],
                     wellcond=bool(case["exp"]["wellcond"]), clipped=clipped, row=idx)
@@ -168,7 +191,7 @@ def run_problem(job):
             tr.append({"ev": "result", "x": xenc, "ok": r["ok"], "sane": r["sane"], "exc": False, "nan": xnan,
                        "judged": chain != "stub"})
             if chain == "root-default" and case["exp"]["single"]:
-                br = _bracket(inp, c0row, params[ns:], s_exp)
+                br = _bracket(inp, c0row, ks, s_exp)
                 if br is not None:
                     tr.append(br[0])
                     meta["bracket"] = br[1]
@@ -206,7 +229,7 @@ def _key(meta, clause):
 
 def _judge(ctx, items, cfg="EqSolveTrace.cfg"):
     traces = [t for t, _ in items]
-    verdicts = ctx.validate_traces("EqSolveTrace", cfg, traces, chunk=2500)
+    verdicts = ctx.validate_traces("EqSolveTrace", cfg, traces, chunk=4000)
     for (tr, meta), (v, pos, clause) in zip(items, verdicts):
         claimed = bool(meta.get("ok") and meta.get("sane")) and meta["chain"] != "stub"
         ctx.ran([meta["rids"], meta["K"], meta["c0"], meta["chain"], meta["row"]], nontrivial=claimed)
@@ -229,14 +252,16 @@ def _judge(ctx, items, cfg="EqSolveTrace.cfg"):
 
 def _plan(ctx, cases):
     """stratified choice of problems and the chains each is run under"""
-    n = 260 if ctx.quick else 2600
+    n = 220 if ctx.quick else 2600
     sel = ctx.pick(cases, n)
     jobs = []
     for c in sel:
         homog = c["exp"]["homog"]
         chains = ["root-default", "solve-default", "root-lin", "root-loglin-cc"]
         if homog:
-            chains += ["root-log-rref", "roots", "stub"]
+            chains += ["root-log-rref", "roots", "stub", "root-x0", "root-x0-loglin", "roots-x0"]
+        else:
+            chains += ["root-x0"]
         for ch in chains:
             jobs.append((c, ch, ctx.rng.randrange(1 << 30)))
     # more well-conditioned problems for the success-rate tally (default chains only)
@@ -311,6 +336,7 @@ def run(ctx):
     _judge(ctx, items)
 
     # ---- success rate of the default chains on well-conditioned problems (judged by RateOK)
+    tallies = []
     for chain in ("root-default", "solve-default"):
         runs = [m for _, m in items if m["chain"] == chain and m["wellcond"]]
         nok = sum(1 for m in runs if m.get("ok") and m.get("sane"))
@@ -318,8 +344,11 @@ def run(ctx):
         ctx.counters["wellcond_%s_ok" % chain] = nok
         if len(runs) < 20:
             raise core.MachineryFailure("too few well-conditioned runs for %s: %d" % (chain, len(runs)))
-        v, pos, clause = ctx.validate_traces("EqSolveTrace", "EqSolveTrace.cfg",
-                                             [[{"ev": "rate", "ok": nok, "n": len(runs)}]], count=False)[0]
+        tallies.append((chain, runs, nok))
+    rate_verdicts = ctx.validate_traces("EqSolveTrace", "EqSolveTrace.cfg",
+                                        [[{"ev": "rate", "ok": nok, "n": len(runs)}] for _, runs, nok in tallies],
+                                        count=False)
+    for (chain, runs, nok), (v, pos, clause) in zip(tallies, rate_verdicts):
         if v != "accept":
             fails = [dict(rids=m["rids"], K=m["K"], c0=m["c0"], ok=m.get("ok"), sane=m.get("sane"), exc=m.get("exc"))
                      for m in runs if not (m.get("ok") and m.get("sane"))][:10]
